@@ -79,6 +79,9 @@ import pox.lib.ioworker as _iow
 class StreamSock(object):
   """a connected socket with `stream` waiting in its receive queue: recv returns up to n bytes of it and - unless MSG_PEEK is
   given - removes them from the queue"""
+  def shutdown(self, how):
+    self.trace.log.append(("shutdown", how))
+
   def recv(self, n, flags=0):
     self.trace.log.append(("recv", n, flags))
     d = self.stream[:n]
@@ -95,6 +98,10 @@ def _rx(worker):
   worker.socket.trace.log.append(("rx",))
 
 
+def _on_close(worker):
+  worker.socket.trace.log.append(("closed",))
+
+
 @unit(P, target="pox.lib.ioworker:IOWorker._try_connect / _do_recv (outbound worker noticing its connect)")
 def the_connect_probe_does_not_consume_stream_bytes(b):
   tr = b.raw_new(_IL.Trace, log=b.list([]))
@@ -102,7 +109,7 @@ def the_connect_probe_does_not_consume_stream_bytes(b):
   sock = b.raw_new(StreamSock, trace=tr, stream=S)
   w = b.raw_new(_iow.RecocoIOWorker, socket=sock, send_buf=b"", receive_buf=b"", closed=False, _custom_rx_handler=_rx,
                 _custom_close_handler=_iow._dummy_handler, _custom_connect_handler=_connected, _connecting=True,
-                _shutdown_send=False, on_close=None, pinger=None)
+                _shutdown_send=False, on_close=_on_close, pinger=None)
   loop = b.raw_new(_iow.RecocoIOLoop, _workers=b.set_of([w]), pinger=None, _pending_commands=b.deque([]), running=None, id=1,
                    priority=1, _worker_type=_iow.RecocoIOWorker)
   def run(w, loop):
